@@ -10,9 +10,9 @@ SYMX_NOTE = ("Trusted: rustc; the symbolic Uint128 shim (every run re-executes e
              "scenario templates bound history length and which quantities are symbolic (listed per scenario in the evidence).")
 
 CLAIMED = {
-    "C01": ("model_checking", "symbolic execution of the real vAMM contract through a symbolic Uint128 + SMT (z3) proof of k-monotonicity, base+net=initial and failed-swap-unchanged for ALL reserve pairs/amounts/limits; 1-3 step sequences; sequences and engine histories in which the owner closes and re-opens the market between trades",
+    "C01": ("model_checking", "symbolic execution of the real vAMM contract through a symbolic Uint128 + SMT (z3) proof of k-monotonicity, base+net=initial and failed-swap-unchanged for ALL reserve pairs/amounts/limits; 1-3 step sequences; sequences and engine histories in which the owner closes and re-opens the market, or re-points the vAMM's margin_engine setting and back, between trades",
             "DESIGN.md §4 C01"),
-    "C02": ("model_checking", "engine histories (open / increase / reduce / reverse / close / full and partial liquidation / funding / deposit / withdraw, long and short, cw20 and native, with fees) executed symbolically through engine -> vAMM -> reply; after EVERY transaction (successful or failed) z3 proves sum of signed position sizes == vAMM net position for all symbolic amounts on the path; owner interludes before the transaction under test (market closed and re-opened, out-of-range partial-liquidation ratio sent) with the liquidated remainder topped up and closed afterwards",
+    "C02": ("model_checking", "engine histories (open / increase / reduce / reverse / close / full and partial liquidation / funding / deposit / withdraw, long and short, cw20 and native, with fees) executed symbolically through engine -> vAMM -> reply; after EVERY transaction (successful or failed) z3 proves sum of signed position sizes == vAMM net position for all symbolic amounts on the path; owner interludes before the transaction under test (market closed and re-opened, out-of-range partial-liquidation ratio sent) with the liquidated remainder topped up and closed afterwards; partial closes on a pool priced at 0.1 with odd raw amounts",
             "DESIGN.md §4 C02"),
     "C03": ("model_checking", "same histories; per transaction z3 proves total collateral over all accounts unchanged, only sender/engine/insurance fund/fee pool balances move, a liquidated trader receives nothing, failed transactions move nothing; native variants with a symbolic amount of coins attached to messages that need none and to DepositMargin; a vAMM whose own insurance-fund field points at an outsider; balances of vAMMs and price feed are part of the conserved total; accounts without a role sending the fee pool's SendToken (recipient: owner / third party / self) and the insurance fund's Withdraw; the engine re-pointed at a second fee pool (the old one is no longer a permitted recipient)",
             "DESIGN.md §4 C03"),
@@ -30,7 +30,7 @@ CLAIMED = {
             "DESIGN.md §4 C09"),
     "C10": ("model_checking", "same histories with 5 position holders: per transaction every other trader's whole Position record is proved equal term-for-term before and after (Liquidate: except the named trader); address-aliasing scenarios (position key = hash(vamm ++ trader): an attacker whose address is a suffix of the victim's sends each of the six engine messages with the crafted vamm string); every query of all five contracts leaves raw storage and balances bytewise unchanged; accounts whose names differ from the victim's only in letter case",
             "DESIGN.md §4 C10"),
-    "C11": ("model_checking", "PayFunding at enumerated block times around the funding time ({-1,0,+1,+buffer..}) for periods {3600,5400,86400}, 1-3 settlements, net position of either sign (counter size symbolic), oracle price symbolic: success only at/after the funding time, cumulative fraction delta == trunc((vAMM TWAP - oracle TWAP) x period/day) from queries made before, next funding time >= now + period/2, exactly |net x fraction| moves vault<->insurance fund (capped at the vault balance); after a settlement every position operation (increase, reduce/reverse, withdraw, partial and whole close, deposit, partial liquidation) is checked for the exact funding charge and checkpoint movement",
+    "C11": ("model_checking", "PayFunding at enumerated block times around the funding time ({-1,0,+1,+buffer..}) for periods {3600,5400,86400}, 1-3 settlements, net position of either sign (counter size symbolic), oracle price symbolic: success only at/after the funding time, cumulative fraction delta == trunc((vAMM TWAP - oracle TWAP) x period/day) from queries made before, next funding time >= now + period/2, exactly |net x fraction| moves vault<->insurance fund (capped at the vault balance); after a settlement every position operation (increase, reduce/reverse, withdraw, partial and whole close, deposit, partial liquidation) is checked for the exact funding charge and checkpoint movement; a full liquidation hands the insurance fund exactly margin + PnL - funding owed (by the harness's charged-at ledger) - the liquidator's share",
             "DESIGN.md §4 C11"),
     "C12": ("model_checking", "shared histories with toll and spread symbolic in [0,1] and amounts down to fee-rounds-to-zero: per transaction z3 proves fee-pool delta == floor(notional*toll), insurance-fund delta (net of recorded prepaid bad debt) == floor(notional*spread) with notional = floor(margin*leverage), once per reversal, the quoted fee on the open notional for whole closes, and zero for deposit/withdraw/funding/liquidation; the trader side of a whole close (wallet delta = equity - quoted fees, cw20 and native); witness seeds with toll = 0 and with spread = 0; a vAMM whose own insurance-fund field points elsewhere; the configured ratios come from a harness ledger of instantiation and owner updates, not from the vAMM's Config answer; the engine re-pointed at a second fee pool",
             "DESIGN.md §4 C12"),
@@ -42,7 +42,7 @@ CLAIMED = {
             "DESIGN.md §4 C15"),
     "C16": ("model_checking", "all event sequences of length 3 (sampled length 4; thorough: all) over {trades by bob / liquidator / bystander / alice, closes, liquidation of alice, next block} on a staged liquidatable position (full and partial liquidation): an Open/Close by a trader whose Position.block_number is the current block after a liquidation in that block is rejected with storage and balances unchanged, nobody else is rejected for that reason; dedicated orderings with symbolic amounts; liquidation fee symbolic down to zero in the dedicated orderings; two-vAMM scenarios (a liquidation on one vAMM restricts second actions on that vAMM only); partial-liquidation ratio at exactly 100 %",
             "DESIGN.md §4 C16"),
-    "C17": ("model_checking", "vAMM alone from ALL reserve pairs with symbolic amount and limit: InputAmount/OutputAmount query before == reserve deltas, net-position delta and event attributes after; limit semantics with the limit on both sides of the executed amount; through the engine the limit inside the delivered vAMM sub-message is proved equal to the caller's on fresh/increase/reduce/whole close; whole close that leaves the band under a 100% fraction, and whole liquidation (partial ratio 0), each with a symbolic limit",
+    "C17": ("model_checking", "vAMM alone from ALL reserve pairs with symbolic amount and limit: InputAmount/OutputAmount query before == reserve deltas, net-position delta and event attributes after; limit semantics with the limit on both sides of the executed amount; through the engine the limit inside the delivered vAMM sub-message is proved equal to the caller's on fresh/increase/reduce/whole close; whole close that leaves the band under a 100% fraction, and whole liquidation (partial ratio 0), each with a symbolic limit; the vAMM-alone swaps also on a vAMM that charges a 1 % toll and spread",
             "DESIGN.md §4 C17"),
     "C20": ("model_checking", "engine UpdateConfig with each optional ratio absent|symbolic over the full range (all 15 masks, sequences of 2-3, symbolic instantiate ratios), vAMM instantiate/UpdateConfig likewise with the twap interval from the boundary set; after every call z3 proves all stored ratios <= 1 and maintenance <= initial; AddVamm x decimals enumerated; caps: symbolic open-interest and holding caps, whitelist enumerated, caps changed between trades, margins symbolic",
             "DESIGN.md §4 C20"),
